@@ -61,6 +61,9 @@ func parseModel(model string) map[string]string {
 
 // modelValue finds the value of the first fresh constant created with the given hint (e.g. "totalPower" -> totalPower!7).
 func modelValue(m map[string]string, hint string) (string, bool) {
+	if v, ok := m[hint]; ok {
+		return strings.Trim(v, "\""), true
+	}
 	best := ""
 	bestN := 1 << 30
 	for k, v := range m {
